@@ -9,6 +9,7 @@ connected to an arbitrary device `d` (any table sizes); `usage` restricts the se
 quantifies over (one user thread; a link is opened only when none is open; only an existing driver reports errors).
 -/
 import CfVerif.Proofs.C02
+import CfVerif.Proofs.C02Live
 import CfVerif.Proofs.C02SyncA
 import CfVerif.Proofs.C02SyncB
 import CfVerif.Proofs.C02SyncC
@@ -165,6 +166,36 @@ theorem reconnectable (d : Dev) (ops : List Op) (hu : usage d Sys.init ops = tru
   have hw := hs.wrap
   rw [phase_down _ hl] at hw
   exact ⟨wOk_idle _ hw, reopen_eq d _ hs.core hl ha⟩
+
+/-- **handshake_completes** (progress; "in bounded time" as bounded steps; the second half of "can connect again" and of
+"a blocking open returns"): from the state after ANY history in which a link is open and no fault is pending, at most
+`pot d c + 1` fault-free scheduling rounds (the dispatcher handles a packet, then a worker runs) bring the object to
+the connected stage — `connected` has been signalled (`phase` is `con`/`ful`) — and a blocked
+`SyncCrazyflie.open_link` has returned.  `pot` is explicit: 3 + the table sizes + twice the number of extended
+parameters + 7 at the start of an attempt. -/
+theorem handshake_completes (d : Dev) (ops : List Op) (hu : usage d Sys.init ops = true) :
+    let s := (run d Sys.init ops).1
+    s.c.link = true → s.c.armed = false →
+      ∃ n, n ≤ pot d s.c + 1 ∧
+        (phase (run d s (pumpOps n)).1.c).isConnected = true ∧ (run d s (pumpOps n)).1.w.waitOpen = false := by
+  intro s hl ha
+  have hs := (run_sound d ops Sys.init (sinv_init d) hu).1
+  obtain ⟨n, hn, hc, hl', hst⟩ := pumpN_reaches_up d (pot d s.c) s.c (Nat.le_refl _) hs.core hl ha
+  refine ⟨n, hn, ?_⟩
+  have hs' := (run_sound d (pumpOps n) s hs (usage_pumpOps d n s)).1
+  have hcore := run_pumpOps_core d n s
+  have hph : (phase (run d s (pumpOps n)).1.c).isConnected = true := by
+    rw [hcore]
+    rcases hc.linkSt hl' with ⟨_, _, h3⟩ | ⟨h1, _⟩
+    · rw [hst] at h3; cases h3
+    · simp only [phase, hl', h1, hst, if_true]; split <;> rfl
+  refine ⟨hph, ?_⟩
+  have hw := (wOk_wait _ _ hs'.wrap).1
+  cases hwo : (run d s (pumpOps n)).1.w.waitOpen
+  · rfl
+  · rcases hw hwo with h | h <;> rw [h] at hph <;> cases hph
+
+example : pot ⟨true, 2, 1, [true, false]⟩ (openLink true S.init).1 = 15 := by decide
 
 /-! ## The unrepaired code (counterexamples; the same scripts are replayed on the real code by `search()`) -/
 
